@@ -188,7 +188,15 @@ func runScript(id int, script []epochScript, tm timing, can *mon.Canary) {
 					hbCopies = 0
 					hbAnswered++
 					ch := p.Channel
-					go s.Deliver(&knxnet.ConnStateRes{Channel: ch})
+					dup := e.Noise
+					go func() {
+						s.Deliver(&knxnet.ConnStateRes{Channel: ch})
+						if dup {
+							// a duplicated answer (or a gateway answering every copy): the
+							// surplus must not satisfy a later heartbeat
+							s.Deliver(&knxnet.ConnStateRes{Channel: ch})
+						}
+					}()
 				}
 				return
 			}
@@ -872,6 +880,9 @@ func run(rr *mon.Run) {
 		go func() {
 			defer wg.Done()
 			for j := range jobs {
+				if r.Enough() {
+					continue
+				}
 				runScript(j.id, j.s, j.tm, can)
 			}
 		}()
